@@ -433,3 +433,51 @@ def exc_site(e):
             site = '%s:%s' % (fn.split('/jedi/')[-1] if '/jedi/' in fn else 'parso/' + fn.split('/parso/')[-1], fr.name)
             break
     return type(e).__name__, site
+
+
+# ------------------------------------------------------------ process-parallel map (no fork)
+
+def parallel_map(module, func, items, jobs=14, timeout=3000):
+    """Runs `module.func(item)` for every item in `jobs` fresh interpreter processes
+    (harness/worker.py), preserving order. Items and results must be JSON-able.
+    Fresh processes (not fork): jedi starts helper subprocesses and threads."""
+    import tempfile
+    if not items:
+        return []
+    jobs = max(1, min(jobs, (len(items) + 19) // 20))
+    size = (len(items) + jobs - 1) // jobs
+    tmp = tempfile.mkdtemp(prefix='verif-pmap-', dir='/var/tmp')
+    procs = []
+    try:
+        for k in range(jobs):
+            chunk = items[k * size:(k + 1) * size]
+            if not chunk:
+                continue
+            inp = os.path.join(tmp, 'in%d.json' % k)
+            outp = os.path.join(tmp, 'out%d.json' % k)
+            with open(inp, 'w') as f:
+                json.dump(chunk, f)
+            env = dict(os.environ)
+            env['PYTHONPATH'] = os.pathsep.join([REPO, os.path.join(VERIF, 'harness'), VERIF])
+            p = subprocess.Popen([sys.executable, os.path.join(VERIF, 'harness', 'worker.py'),
+                                  module, func, inp, outp], env=env, cwd=VERIF,
+                                 stdout=subprocess.DEVNULL, stderr=subprocess.PIPE, text=True)
+            procs.append((p, outp))
+        res = []
+        for p, outp in procs:
+            try:
+                _, err = p.communicate(timeout=timeout)
+            except subprocess.TimeoutExpired:
+                p.kill()
+                raise InfraError('parallel worker timed out')
+            if p.returncode != 0:
+                raise InfraError('parallel worker failed: ' + (err or '')[-2000:])
+            with open(outp) as f:
+                res.extend(json.load(f))
+        return res
+    finally:
+        for p, _ in procs:
+            if p.poll() is None:
+                p.kill()
+        import shutil
+        shutil.rmtree(tmp, ignore_errors=True)
